@@ -56,7 +56,15 @@ def run_one(name, path, suite, tier, only):
     res = dict(name=name, props=props, what=what, results={})
     try:
         os.makedirs(os.path.dirname(scratch), exist_ok=True)
-        subprocess.run(["rsync", "-a", "--exclude", ".git", "/repo/", scratch + "/"], check=True)
+        base = None
+        meta = os.path.join(os.path.dirname(path), "meta.json")
+        if os.path.exists(meta):
+            base = json.load(open(meta)).get("base")
+        if base:  # recorded against an earlier commit of /repo (a later fix: commit rewrote the lines it touches)
+            os.makedirs(scratch, exist_ok=True)
+            subprocess.run("git -C /repo archive %s | tar -x -C %s" % (base, scratch), shell=True, check=True)
+        else:
+            subprocess.run(["rsync", "-a", "--exclude", ".git", "/repo/", scratch + "/"], check=True)
         p = subprocess.run(["patch", "-p1", "-s", "-d", scratch, "-i", path], stdout=subprocess.PIPE, stderr=subprocess.STDOUT, text=True)
         if p.returncode != 0:
             res["error"] = "patch does not apply: " + p.stdout[-300:]
